@@ -309,11 +309,11 @@ package alephium
 //@ func (w *Watcher) getGovernanceEventsByTxId(ctx context.Context, logger *zap.Logger, client *Client, address string, blockHash string, txId string) (evs []*reobservedEvent, err error)
 //@   props C08
 //@   requires w != nil && w.client != nil && client != nil
-//@   ensures [from-core-contract] err == nil ==> (forall k in 0..len(evs) :: evs[k] != nil && evs[k].ContractEventByTxId != nil && evs[k].ContractAddress == address && evs[k].EventIndex == 0 && evs[k].header != nil)
+//@   ensures [from-core-contract] err == nil ==> (forall k in 0..len(evs) :: evs[k] != nil && evs[k].ContractEventByTxId != nil && evs[k].ContractAddress == address && evs[k].EventIndex == 0 && evs[k].header != nil && (evs[k].isTransfer <==> isTransferFields(evs[k].Fields)))
 //@   modifies fresh reobservedEvent.*, fresh sdk.ContractEventByTxId.*, fresh TokenInfo.*, fresh lib:big.Int.v, fresh cell:uint8, fresh cell:string, fresh cell:Byte32, fresh sdk.MultipleCallContract.*, fresh WormholeMessage.*
 //@   replay alephium_reobserve.go.tmpl
 //@   loop [range events.Events]:
-//@     invariant [from-core-contract] forall k in 0..len(reobservedEvents) :: reobservedEvents[k] != nil && allocated(reobservedEvents[k]) && reobservedEvents[k].ContractEventByTxId != nil && allocated(reobservedEvents[k].ContractEventByTxId) && reobservedEvents[k].ContractAddress == address && reobservedEvents[k].EventIndex == 0 && reobservedEvents[k].header != nil
+//@     invariant [from-core-contract] forall k in 0..len(reobservedEvents) :: reobservedEvents[k] != nil && allocated(reobservedEvents[k]) && reobservedEvents[k].ContractEventByTxId != nil && allocated(reobservedEvents[k].ContractEventByTxId) && reobservedEvents[k].ContractAddress == address && reobservedEvents[k].EventIndex == 0 && reobservedEvents[k].header != nil && (reobservedEvents[k].isTransfer <==> isTransferFields(reobservedEvents[k].Fields))
 //@     invariant [self] w != nil && w.client != nil && client != nil
 
 //@ pred isTransferFields(fs []sdk.Val) = len(fs) == 6 && fs[4].ValByteVec != nil && len(bytevecval(fs[4])) > 0 && bytevecval(fs[4])[0] == 1
@@ -325,7 +325,7 @@ package alephium
 //@   at [events, err := w.getGovernanceEventsByTxId(ctx, logger, client, w.governanceContractAddress, blockHash, txId)]: assume-env [node-reports-sane-headers] forall k in 0..len(events) :: events[k] != nil ==> events[k].header != nil ==> saneHeader(events[k].header)
 //@   at [confirmed = append(confirmed, event)]: assert [canonical-in-this-request] isCanonical != nil && *isCanonical
 //@   at [confirmed = append(confirmed, event)]: assert [enough-blocks] event.header.Height + event.confirmations <= *currentHeight
-//@   at [confirmed = append(confirmed, event)]: assert [mainnet-time-floor] w.isMainnet && isTransferFields(event.Fields) ==> (event.header.Timestamp + (event.confirmations >= 205 ? event.confirmations : 205) * 16000) * 1000000 <= ghostNow()
+//@   at [confirmed = append(confirmed, event)]: assert [mainnet-time-floor] w.isMainnet && event.isTransfer ==> (event.header.Timestamp + (event.confirmations >= 205 ? event.confirmations : 205) * 16000) * 1000000 <= ghostNow()
 //@   loop [for]:
 //@     invariant [self] w != nil && w.client != nil && client != nil && w.chainIndex != nil
 //@   loop [range events]:
